@@ -35,7 +35,7 @@ def levels(tier):
         {"name": "empty-prefix3", "n": 0, "prelude": TPL3, "subset": 3, "alphabet": ["links"], "defaults": ["never"], "pool": POOL6, "ks": [1, 2, 3],
          "orders": 6},
         {"name": "subset-n1", "n": 1, "prelude": TPL, "subset": 2, "alphabet": ["links", "we", "addprefix"], "links_batch": 1, "defaults": ["never"], "pool": POOL5, "ks": [1, 2]},
-        {"name": "tpl-n2", "n": 2, "prelude": TPL, "alphabet": ["links"], "links_batch": 1, "defaults": ["never"], "pool": POOL5, "ks": [1, 2]},
+        {"name": "tpl-n2", "n": 2, "prelude": TPL, "alphabet": ["links"], "links_batch": 1, "defaults": ["never"], "pool": POOL5, "ks": [1, 2, None]},
         {"name": "requery-n2", "n": 2, "prelude": TPL + [["we", [[2, 5]]], ["links", [[0, 1], [1, 2], [4, 2], [3, 0]]]], "alphabet": ["addprefix", "rmprefix", "moveprefix", "delwe"],
          "defaults": ["never"], "pool": POOL5, "ks": [1, 2], "requery": True},
         {"name": "n3", "n": 3, "alphabet": ["links", "we"], "links_batch": 1, "defaults": ["never"], "pool": [POOL4[0], POOL4[1], POOL4[3]], "ks": [1, 2]},
@@ -143,7 +143,7 @@ def paginate_check(E, P, t, h, pool, tag, sel):
         if ans["done"]:
             E.check(not ans.get("token"), "pagelinks:done-flag", "final answer carries a token")
             break
-        E.check(len(srcs) == k, "pagelinks:sources-per-answer", "non-final answer covers %d link-bearing source pages, %d requested" % (len(srcs), k))
+        E.check(k is not None and len(srcs) == k, "pagelinks:sources-per-answer", "non-final answer covers %d link-bearing source pages, %r requested" % (len(srcs), k))
         E.check(bool(ans.get("token")), "pagelinks:done-flag", "non-final answer has no token")
         token = ans["token"]
         E.reach("resumed")
